@@ -49,7 +49,8 @@ ASSUMPTIONS = ['"new dict" is read as: type(result) is dict at every mapping lev
                'case mappings such as the Kelvin sign or long s) are DONT-CARE: either outcome accepted',
                'key order of the result, identity of key objects and identity of returned str values are '
                'not asserted; masks containing backslashes (regex templates) are not generated']
-SHARDS = {'quick': 1, 'thorough': 16}
+INTERPRETER_FLAGS = [[], ['-O']]      # -bb not used here: the inputs mix str and bytes keys/subjects (DONT-CARE zone), where the pinned tree itself compares or str()s bytes
+SHARDS = {'quick': 4, 'thorough': 16}
 MIN_DISTINCT = {'quick': 5000, 'thorough': 200000}
 
 # own copy of the 35 sanitize keys (property C08 / DESIGN.md at design time)
